@@ -94,10 +94,10 @@ def schema_files(s) -> dict:
     mixed = ' mixed="true"' if s.get("mixed") else ""
     main = (
         f'<xs:element name="root"><xs:complexType{mixed}><xs:sequence>{body}</xs:sequence>'
-        + ('<xs:attributeGroup ref="t:AG"/>' if s["agrp"] else "")
+        + ('<xs:attributeGroup ref="t:G"/>' if s["agrp"] else "")
         + "</xs:complexType></xs:element>"
         '<xs:group name="G"><xs:sequence><xs:element name="p" type="xs:int"/><xs:element name="q" type="xs:string" minOccurs="0"/></xs:sequence></xs:group>'
-        '<xs:attributeGroup name="AG"><xs:attribute name="a1" type="xs:int" use="required"/><xs:attribute name="a2" type="xs:string"/></xs:attributeGroup>'
+        '<xs:attributeGroup name="G"><xs:attribute name="a1" type="xs:int" use="required"/><xs:attribute name="a2" type="xs:string"/></xs:attributeGroup>'
         + ('<xs:complexType name="Base"><xs:sequence><xs:element name="z" type="xs:string"/></xs:sequence></xs:complexType>' if s["split"] == "importSameName" else "")
         + '<xs:complexType name="Node"><xs:sequence><xs:element name="v" type="xs:int"/><xs:element name="n" type="t:Node" minOccurs="0"/></xs:sequence></xs:complexType>'
     )
